@@ -19,7 +19,7 @@ def run(ctx, out):
     cases = []
     pendings = [None, 0xffff, 17, 9999]                    # receipt reported by the pending query (None: field absent)
     eods = [[P.completion()], [P.pr_abort(0xa0)], [P.pr_abort(0x6c)], [P.intermediate(), P.print_line("eod"), P.completion()]]
-    codes = range(256) if thorough else list(range(0, 256, 5)) + [0xa0, 0xa1, 0x9f]
+    codes = range(256)        # every abort code, in both tiers: the set of tolerated refusals must be exactly {A0}
     for c in codes:
         eods.append([P.pr_abort(c)])
     histories = []
